@@ -66,7 +66,10 @@ def sweep_t16(task):
     rnd = random.Random(task['seed'])
     g = mk_group(task)
     for k, h in enumerate(range(task['lo'], task['hi'])):
-        for itpos in ([h % 3] if task['itpos'] == 'rotate' else task['itpos']):
+        poss = [h % 3] if task['itpos'] == 'rotate' else list(task['itpos'])
+        if task['itpos'] == 'rotate' and h % 8 == 0:
+            poss.append((h + 1) % 3)           # the same halfword once more on the same object, other IT position and state
+        for itpos in poss:
             st, pc = prep(g, rnd, task, True, itpos, k)
             C.put_instr(st, pc, h, True)
             C.put_code(st, 0, pc + 2, rnd.getrandbits(16), 2)
@@ -75,14 +78,16 @@ def sweep_t16(task):
 
 
 def sweep_words(task):
-    """explicit list of (thumb, word) pairs"""
+    """explicit list of (thumb, word) pairs; every 6th word is executed a second time on the same object under a new random
+    state (same word, other flags / IT position / mode: anything remembered from the first execution must not matter)"""
     rnd = random.Random(task['seed'])
     g = mk_group(task)
     for k, (thumb, w) in enumerate(task['words']):
-        itpos = rnd.choice([0, 0, 1, 2]) if thumb else 0
-        st, pc = prep(g, rnd, task, thumb, itpos, k)
-        C.put_instr(st, pc, w, thumb)
-        g.add(st, {'n': 'Step'}, meta={'word': w, 'itpos': itpos, 'thumb': thumb})
+        for rep in range(2 if k % 6 == 0 else 1):
+            itpos = rnd.choice([0, 0, 1, 2]) if thumb else 0
+            st, pc = prep(g, rnd, task, thumb, itpos, k + rep)
+            C.put_instr(st, pc, w, thumb)
+            g.add(st, {'n': 'Step'}, meta={'word': w, 'itpos': itpos, 'thumb': thumb, 'rep': rep})
     return [g]
 
 
